@@ -9,13 +9,14 @@ LEVEL = "fault_enumeration"
 RULE = ("Hypothesis over LRO-heavy API models (Operation-returning methods whose operation_info response/metadata names are relative "
         "or fully qualified, defined in the service's file, another target file (imported or not), a sub-package file, or Empty; "
         "with one name missing; or without annotation) x inner operation histories (not-done^k, k in 0..4, then done with a packed "
-        "response or an error status from 7 codes; payload and metadata valuations; sync|asyncio). The harness owns the clock "
+        "response or an error status from 7 codes; payload and metadata valuations; sync|asyncio|REST - REST with the Operations "
+        "GetOperation HTTP rule taken from the service YAML (3 shapes, alone or as primary + additional bindings in either order) or api-core's default). The harness owns the clock "
         "(sleep returns at once). Oracle: missing name => generation raises; annotated => api-core operation future, exactly k+1 "
-        "GetOperation calls for the issued name on the same loopback channel, result()/metadata are instances of the classes the "
+        "GetOperation calls for the issued name on the same loopback channel (REST: k+1 GETs on the path the rule expands to), result()/metadata are instances of the classes the "
         "names resolve to relative to the method's package and equal the packed payloads, error history raises; un-annotated => raw "
         "Operation, never polled. Non-trivial: type outside the service's file, or k >= 1; distinct = (resolution case of response, "
         "of metadata, k, outcome, client).")
-ASSUMPTIONS = ["LRO over REST (needs Operations mixin HTTP rules) is not exercised; gRPC sync and asyncio are",
+ASSUMPTIONS = ["LRO over REST: operation names are drawn to match the GetOperation rule in force (a name the rule cannot transcode is api-core's business)",
                "nested messages as operation_info types are not generated"]
 
 
@@ -25,12 +26,26 @@ def budget(tier):
 
 @st.composite
 def _case(draw):
-    prof = S.profile(dep_only_file=0.2, max_methods=4, max_services=2, p_http=0.3, p_sig=0.15, p_routing=0.05, p_paged=0.05, p_lro=0.7, p_stream=0.05,
+    prof = S.profile(dep_only_file=0.2, max_methods=4, max_services=2, p_http=0.65, p_sig=0.15, p_routing=0.05, p_paged=0.05, p_lro=0.7, p_stream=0.05,
                      p_dep_io=0.05, p_comment=0.03, max_messages=5, max_fields=4, max_files=3, p_subpackage=0.35, lro_variants=True, p_colliding_file_name=0.35,
                      p_resource=0.1)
     api = draw(S.apis(prof))
-    opts = {"params": ["autogen-snippets=False"], "snippets": False, "transport": "grpc"}
-    return {"api": api, "options": opts, "inner": {"seed": draw(st.integers(0, 2 ** 31)), "n": 8}}
+    t = draw(st.sampled_from(["grpc", "grpc+rest", "grpc+rest"]))
+    opts = {"params": ["autogen-snippets=False", f"transport={t}"], "snippets": False, "transport": t}
+    inner = {"seed": draw(st.integers(0, 2 ** 31)), "n": 8}
+    if "rest" in t:
+        # LRO over REST polls through the Operations HTTP rules of the service YAML (api-core's default rule otherwise)
+        shapes = ["/v1/{name=operations/*}", "/v1beta/{name=projects/*/operations/*}", "/v2/{name=projects/*/locations/*/operations/*}"]
+        rules = draw(st.sampled_from([[], [], shapes[:1], shapes[1:2], shapes[2:], shapes, shapes[::-1], shapes[1:]]))
+        inner["lro_get_rules"] = rules          # primary binding first, then additional_bindings
+        if rules:
+            host = next((s.get("host") for _f, s, _m in M.all_methods(api)), "lib.acme.com")
+            get = {"selector": "google.longrunning.Operations.GetOperation", "get": rules[0]}
+            if rules[1:]:
+                get["additional_bindings"] = [{"get": r} for r in rules[1:]]
+            opts["service_yaml"] = {"type": "google.api.Service", "config_version": 3, "name": host, "http": {"rules": [
+                get, {"selector": "google.longrunning.Operations.CancelOperation", "post": rules[0].replace("}", "}:cancel"), "body": "*"}]}}
+    return {"api": api, "options": opts, "inner": inner}
 
 
 def strategy(tier):
